@@ -94,6 +94,9 @@ type FuncContract struct {
 	FPMonotone   bool
 	FPInexact    bool
 	Bounded      []BoundedCheck
+	MayPanicArb  bool     // maypanic only via methods of the `arbitrary` parameters
+	Arbitrary    []string // parameters that may hold an arbitrary user value (see isArbitrary)
+	Spawns       []string // callees this function may start goroutines on although they are not under contract
 	FPAbstract   bool      // floats are unconstrained values (NaN/Inf included); only float-independent facts are provable
 	Contended    bool      // runs concurrently with writers of the mutexes it read-locks
 	Variant      string    // "" or the name of the verification variant this contract belongs to
@@ -238,7 +241,7 @@ var clauseKeywords = map[string]bool{
 	"props": true, "requires": true, "ensures": true, "onpanic": true, "modifies": true, "nopanic": true,
 	"maypanic": true, "recovers": true, "loop": true, "dyncall": true, "ghost": true, "assert": true,
 	"sweep": true, "trusted": true, "unreachable": true, "note": true, "implements": true, "arith": true,
-	"panics": true, "inv": true, "hyp": true, "goal": true, "vars": true, "thread-root": true, "assume-ranges": true, "fp-monotone": true, "fp-inexact": true, "fp-abstract": true, "contended": true, "interference": true, "bounded": true,
+	"panics": true, "inv": true, "hyp": true, "goal": true, "vars": true, "thread-root": true, "assume-ranges": true, "fp-monotone": true, "fp-inexact": true, "fp-abstract": true, "contended": true, "interference": true, "bounded": true, "spawns": true, "arbitrary": true,
 }
 
 func firstWord(s string) (string, string) {
@@ -556,6 +559,11 @@ func (cs *ContractSet) parseClause(fc *FuncContract, c rawLine, path string) err
 		fc.NoPanic = true
 	case "maypanic":
 		fc.MayPanic = true
+		// `maypanic arbitrary`: only through the methods of the parameters declared `arbitrary`; a caller that passes
+		// ordinary values there sees no exceptional edge
+		if strings.TrimSpace(body) == "arbitrary" {
+			fc.MayPanicArb = true
+		}
 	case "panics":
 		fc.PanicsAlways = true
 		fc.MayPanic = true
@@ -588,6 +596,12 @@ func (cs *ContractSet) parseClause(fc *FuncContract, c rawLine, path string) err
 			return fmt.Errorf("%s:%d: bounded: expected '<driver> : <description>'", path, c.line)
 		}
 		fc.Bounded = append(fc.Bounded, BoundedCheck{Driver: strings.TrimSpace(t[:i]), Text: strings.TrimSpace(t[i+1:]), Label: label, Props: props})
+	case "spawns":
+		fc.Spawns = append(fc.Spawns, strings.TrimSpace(body))
+	case "arbitrary":
+		// arbitrary <param>: the parameter may hold an arbitrary value supplied by user code (a recovered panic value):
+		// calling a method of it runs user code, which may panic
+		fc.Arbitrary = append(fc.Arbitrary, strings.Fields(strings.ReplaceAll(body, ",", " "))...)
 	case "note":
 		fc.Notes = append(fc.Notes, body)
 	case "arith":
